@@ -276,6 +276,10 @@ pub fn drive(tier: &str) -> i32 {
         "several block statements on one source line (sequential and nested)".into(),
         vcore::slots::one_line_programs(),
     ));
+    groups.push((
+        "statement templates inside 8 containers (SUB / FUNCTION / STATIC SUB bodies, single-line IF, IF in FOR, CASE, ELSE in WHILE, SUB with shared declarations); one free slot in the SUB body".into(),
+        vcore::slots::instantiate_in_containers(if quick { &[0] } else { &[0, 1, 3, 5] }),
+    ));
     groups.push(("memory statements: every sequence of <= 3 over DEF SEG (none, = 0, = VARSEG of an array) / PEEK / POKE at a fixed address and at variables of every type".into(), memory_programs()));
     groups.push((
         "harvested texts (accepted ones are run; x stdin menu when they read the console)".into(),
